@@ -49,7 +49,8 @@ MANIFEST = {
                  "source-to-AST translation proved equivalent to the models; model tied by regenerated tables and a differential rig",
     "design_ref": "5/C10",
 }
-MODULES = ["PrimaiteModel.Props.C10", "PrimaiteModel.Props.C10Calc", "PrimaiteModel.Props.C10Total", "PrimaiteModel.Props.C10Float"]
+MODULES = ["PrimaiteModel.Props.C10", "PrimaiteModel.Props.C10Calc", "PrimaiteModel.Props.C10Total", "PrimaiteModel.Props.C10Float",
+           "PrimaiteModel.Props.C10Truth"]
 EXE = "drv_c10"
 
 
@@ -440,14 +441,18 @@ def _families(ctx: Ctx) -> List[Tuple[str, dict]]:
         g4 = {u: [v for (x, v) in arcs if x == u] for u in range(4)}
         acyclic = not rig.has_cycle_ref(g4)
         # an accepted (acyclic) graph is evaluated in an order that depends on the declaration order. Graphs in which some agent is
-        # reached along two different paths (diamond, triangle: where a pre-order / reversed-discovery order goes wrong) are loaded
-        # in ALL 24 declaration orders; the other acyclic ones in four (each agent declared first once); a cyclic one is rejected
-        # whatever the order: one random order in quick. thorough: all 24 for every graph.
+        # reached along two different paths (where a pre-order / reversed-discovery order goes wrong): those with <= 4 arcs (every
+        # diamond, every triangle, triangle + one arc) are loaded in ALL 24 declaration orders, the denser ones in 8 (each agent
+        # declared first at least once); the other acyclic ones in 5; a cyclic one is rejected whatever the order: one random order
+        # in quick. thorough: all 24 for every graph. (The raw-graph family has EVERY key order of EVERY acyclic graph <= 4 nodes.)
         stepped = rng.choice(perms4)  # quick: one declaration order per graph is also stepped (stale values); the others are loaded
         if ctx.thorough:
             ps, fam = perms4, ("exh4-dag-allorders" if acyclic else "exh4")
+        elif acyclic and _reconvergent(g4) and len(arcs) <= 4:
+            ps, fam = perms4, "exh4-reconvergent-allorders"   # the diamonds, the triangles, a triangle plus one arc
         elif acyclic and _reconvergent(g4):
-            ps, fam = perms4, "exh4-reconvergent-allorders"
+            ps = [stepped] + [rng.choice([p for p in perms4 if p[0] == f]) for f in range(4)] + [rng.choice(perms4) for _ in range(3)]
+            fam = "exh4-reconvergent-8orders"
         elif acyclic:
             ps, fam = [stepped] + [rng.choice([p for p in perms4 if p[0] == f]) for f in range(4)], "exh4-dag-each-first"
         else:
@@ -618,6 +623,8 @@ def run(ctx: Ctx):
             _share_coverage(ctx, case)
             ctx.count("compare:" + ("exact" if case.get("exact", True) else "within-rounding-bound"))
             ctx.count("noninterference-rechecks(calculate re-run on own leaf + own read fields only)", capture.get("rechecked", 0))
+            ctx.count("live-object oracle(component value recomputed from the live simulator objects)", capture.get("live_checked", 0))
+            ctx.count("truthcheck(model: components on describeT(live objects) = on the real dictionary)", sum(1 for kd in kinds if kd == "truthcheck"))
             kindset = {rig_kind for a in case["agents"] for rig_kind in (_comp_tag(c) for c in a["comps"])}
             for kd in kindset:
                 ctx.count("comp:" + kd)
